@@ -502,7 +502,7 @@ fn main() {
         run_one(id, case, fix21, &mut em);
     }
     if args.case.is_none() {
-        let n = args.n.unwrap_or(if args.thorough() { 900 } else { 120 });
+        let n = args.n.unwrap_or(if args.thorough() { 700 } else { 120 });
         let mut rng = Rng::new(args.seed);
         for i in 0..n {
             let mut r = rng.fork();
